@@ -77,7 +77,8 @@ class World(WsWorld):
         ch = self.run.ch
         self.make_reactor(ch.pick(self.START_OFFSETS, "start"))
         aw, RecServer, RecClient = ws_classes()
-        self.kind = ch.pick(("raw-server", "raw-client", "pair"), "kind") if self.mode is None else self.mode
+        self.kind = ch.pick(("raw-server", "raw-client", "pair", "hs-server", "hs-client"), "kind",
+                            (3, 3, 3, 1.5, 1.5)) if self.mode is None else self.mode
         cfg = self.cfg = {
             "failByDrop": ch.flag("failByDrop"),
             "echo": ch.flag("echo", 0.3),
@@ -110,6 +111,28 @@ class World(WsWorld):
             self.start(s)
             self.start(c)
             self.handshake_pair()
+        elif self.kind in ("hs-server", "hs-client"):
+            # opening handshake explored too: the user's onConnect/onConnecting may return a
+            # pending future which the scheduler resolves later, while the connection may be
+            # lost or time out in between
+            is_server = self.kind == "hs-server"
+            e, peer = self.build_raw(sfac() if is_server else cfac(), is_server)
+            e.monitor = SenderMonitor("mustnot" if is_server else "must")
+            self.pending = []
+            self.hs_async = ch.flag("async-user-callback", 0.6)
+
+            def deferred_hook(*a):
+                if not self.hs_async:
+                    return None
+                f = self.fw.new_future(self)
+                self.pending.append(f)
+                return f
+            e.hooks["on_connect"] = deferred_hook
+            if not is_server:
+                e.hooks["on_connecting"] = deferred_hook
+            self.start(e)
+            self.hs_sent = False
+            self.ops_left = min(self.ops_left, 6)
         else:
             is_server = self.kind == "raw-server"
             e, peer = self.build_raw(sfac() if is_server else cfac(), is_server)
@@ -147,17 +170,46 @@ class World(WsWorld):
         self.check_escapes()
 
     # --- workload ----------------------------------------------------------------------------------
-    def extra_actions(self):
-        if self.ops_left <= 0:
-            return []
+    def hs_actions(self):
         acts = []
+        e = self.e
+        if self.pending:
+            acts.append((2.0, "resolve-user-future", self.resolve_pending))
+        if not self.hs_sent and not self.peer.closed:
+            if e.is_server:
+                acts.append((4.0, "peer-hs", self.peer_handshake))
+            elif b"\r\n\r\n" in bytes(self.peer.received):
+                acts.append((4.0, "peer-hs", self.peer_handshake))
+        return acts
+
+    def resolve_pending(self):
+        f = self.pending.pop(0)
+        self.run.probe("user-future-resolved-late")
+        self.fw.call(self, self.fw.resolve_future, f, None)
+
+    def peer_handshake(self):
+        self.hs_sent = True
+        if self.e.is_server:
+            self.peer.send(self.client_request_bytes())
+        else:
+            self.peer.send(self.server_response_bytes(bytes(self.peer.received)))
+
+    def extra_actions(self):
+        pre = self.hs_actions() if self.kind.startswith("hs-") else []
+        if self.ops_left <= 0:
+            return pre
+        acts = pre
         for ep in self.eps:
             if ep.closed_cb is None or self.run.ch is None:
                 acts.append((2.0, "app:" + ep.name, lambda ep=ep: self.app_op(ep)))
             else:
                 acts.append((0.3, "app-after-close:" + ep.name, lambda ep=ep: self.app_op(ep)))
         if self.peer is not None and not self.peer.closed:
-            acts.append((2.5, "peer", self.peer_op))
+            if self.kind.startswith("hs-") and not self.hs_sent:
+                # before the handshake the only peer events of interest are TCP-level
+                acts.append((1.2, "peer-tcp", self.peer_tcp_op))
+            else:
+                acts.append((2.5, "peer", self.peer_op))
         return acts
 
     def app_op(self, ep):
@@ -219,6 +271,18 @@ class World(WsWorld):
             from autobahn.exception import Disconnected
             if not isinstance(e, Disconnected) and ep.state_name() in ("open",) and op not in ("closeBad",):
                 self.run.violate("C05.api-raises", "%s:%s" % (op, type(e).__name__), repr(e))
+
+    def peer_tcp_op(self):
+        self.ops_left -= 1
+        op = self.run.ch.pick(("fin", "rst"), "peertcp")
+        self.run.log("peerop", op)
+        if op == "fin":
+            self.peer.fin()
+            self.peer.closed = True
+            self.run.fault("peer-fin-during-handshake")
+        else:
+            self.peer.rst()
+            self.run.fault("peer-rst-during-handshake")
 
     def peer_op(self):
         ch = self.run.ch
